@@ -59,3 +59,181 @@ Theorem C15_install_condition : forall c,
   (installed c = false -> forall e, serve c e = Ok e).
 Proof. exact c15_install. Qed.
 Print Assumptions C15_install_condition.
+
+(* ======================================================================== *)
+(* End to end, from the request BYTES (appended).
+
+   The theorems above speak about environ dictionaries.  The ones below close
+   the gap to the wire by composing with the C07 model of the environ
+   construction (Model/Parser.v -> Model/Environ.v, tied by K-env) through the
+   bridge Model/ProxyEnviron.v; proofs in Proof/C15Compose.v on top of C07's
+   lemmas (Proof/Environ*.v) and c15_two_runs.
+
+   Vocabulary.  [feed_all a ds = Some p]: the bytes [ds] (any segmentation)
+   offered to a fresh parser under limits/url_scheme [a] leave it in state
+   [p]; [accepted p]: completed, no error, not the empty request;
+   [head_parts (concat ds) = Some (fl, lines)]: request line and header lines
+   (folded lines joined, empty lines dropped) as a FUNCTION of the bytes;
+   [ctx]: channel.addr (TCP or unix peer), server_name, effective_port,
+   url_prefix, ident; [environ_of ctx p]: the str entries of
+   WSGITask.get_environment; [serve_request cfg ctx p]: what
+   server.application does with it (middleware installed or not).
+   [line_name l]: the text before the first colon; [maps_to n k]: a line named
+   n contributes to environ key k; [key_lines k lines]: the lines that do;
+   [value_of_lines]: their values stripped of SP/HTAB, joined by ", " in
+   arrival order (None when there is none). *)
+From RecordUpdate Require Import RecordUpdate.
+From WV Require Import Model.Receiver Model.Parser Model.Environ Model.ProxyEnviron Spec.Pep3333
+  Proof.EnvironDict Proof.EnvironRun Proof.C15Compose Proof.C15ComposeExamples.
+
+(* (1a) For EVERY parser state -- any header dictionary whatsoever, reachable
+   or not -- and every context: REMOTE_ADDR and REMOTE_HOST are channel.addr[0],
+   REMOTE_PORT is str(channel.addr[1]), SERVER_NAME / SERVER_PORT are the
+   server's, wsgi.url_scheme is the parser's url_scheme attribute (for an
+   accepted request that is adj.url_scheme: C15_e2e_environ_keys).  No request
+   header line occurs on the right-hand sides. *)
+Theorem C15_e2e_context_keys : forall (ctx : Environ.config) (p : parser) (h : hdict),
+  let e := environ_of ctx (p <| headers := h |>) in
+  lookup k_remote_addr e = Some (addr0 (peer_addr ctx)) /\
+  lookup k_remote_host e = Some (addr0 (peer_addr ctx)) /\
+  lookup k_remote_port e = Some (str_addr1 (peer_addr ctx)) /\
+  lookup k_server_name e = Some (server_name ctx) /\
+  lookup k_server_port e = Some (str_port (effective_port ctx)) /\
+  lookup k_url_scheme e = Some (url_scheme p).
+Proof. exact c15_e2e_context_keys. Qed.
+Print Assumptions C15_e2e_context_keys.
+
+(* [meta_fixed a ctx lines o]: in o the seven metadata keys are what the
+   context, adj.url_scheme and the Host line(s) alone determine *)
+Theorem C15_e2e_meta_fixed_means : forall a ctx lines o,
+  meta_fixed a ctx lines o <->
+  lookup k_remote_addr o = Some (addr0 (peer_addr ctx)) /\
+  lookup k_remote_host o = Some (addr0 (peer_addr ctx)) /\
+  lookup k_remote_port o = Some (str_addr1 (peer_addr ctx)) /\
+  lookup k_server_name o = Some (server_name ctx) /\
+  lookup k_server_port o = Some (str_port (effective_port ctx)) /\
+  lookup k_url_scheme o = Some (adj_url_scheme a) /\
+  lookup k_http_host o = value_of_lines (filter host_line lines).
+Proof. exact meta_fixed_spelled. Qed.
+Print Assumptions C15_e2e_meta_fixed_means.
+
+(* (1b) One accepted request, from the bytes.  The task's environ has the
+   seven metadata keys fixed as above (HTTP_HOST a function of the lines named
+   "host" only); every header key the framing code does not touch -- HTTP_HOST
+   and the six proxy keys among them -- is the joined value of exactly the
+   lines whose name maps to it; for each of the six proxy keys those lines are
+   lines of the request whose name is one of the six names (proxy_line) and
+   contains no underscore.  So a proxy key is absent unless such a line was sent. *)
+Theorem C15_e2e_environ_keys : forall a ds p fl lines (ctx : Environ.config),
+  feed_all a ds = Some p -> accepted p -> head_parts (concat ds) = Some (fl, lines) ->
+  meta_fixed a ctx lines (environ_of ctx p) /\
+  (forall ek, plain_key ek = true -> lookup ek (environ_of ctx p) = value_of_lines (key_lines ek lines)) /\
+  (forall pk, is_proxy_key pk = true ->
+     lookup pk (environ_of ctx p) = value_of_lines (key_lines pk lines) /\
+     (forall l, In l (key_lines pk lines) -> In l lines /\ proxy_line l = true /\ underscore_name_line l = false)).
+Proof. exact e2e_environ_keys. Qed.
+Print Assumptions C15_e2e_environ_keys.
+
+(* (1c) Which header names reach which key -- parser.py:232-238 and
+   task.py:576-581 composed: the name is compared ASCII case-insensitively with
+   the "-" spelling ("x-forwarded-for", ..., "forwarded", "host"), and a name
+   containing "_" (X_Forwarded_For, X-Forwarded_For, x_forwarded_for ...) maps
+   to NO key at all: the parser drops the line. *)
+Theorem C15_e2e_names : forall n,
+  maps_to n k_xff = beqb (lower_ascii n) n_xff /\
+  maps_to n k_xfh = beqb (lower_ascii n) n_xfh /\
+  maps_to n k_xfproto = beqb (lower_ascii n) n_xfproto /\
+  maps_to n k_xfport = beqb (lower_ascii n) n_xfport /\
+  maps_to n k_xfby = beqb (lower_ascii n) n_xfby /\
+  maps_to n k_fwd = beqb (lower_ascii n) n_fwd /\
+  maps_to n k_http_host = beqb (lower_ascii n) n_host /\
+  (has_underscore n = true -> forall ek, maps_to n ek = false).
+Proof. exact e2e_names. Qed.
+Print Assumptions C15_e2e_names.
+
+(* ... and [proxy_line], defined by those six names, is exactly "maps to one of
+   the six proxy keys" *)
+Theorem C15_e2e_proxy_line : forall l, proxy_line l = existsb (maps_to (line_name l)) proxy_keys.
+Proof. exact proxy_line_spec. Qed.
+Print Assumptions C15_e2e_proxy_line.
+
+(* (2) The composition.  Two byte-level requests (any segmentation each) that
+   are both accepted, have the same request line, the same body framing and
+   body, and header lines that differ at most in lines named like one of the six
+   proxy headers and in lines whose name contains an underscore (any values,
+   any number, anywhere); a peer that is not the trusted proxy ("*" excluded);
+   any configuration.  Then both are handed to the application; the two
+   environs agree on every key other than the six; in both the seven metadata
+   keys are what the context, adj.url_scheme and the Host line determine; with
+   clearing on none of the six reaches the application and the two environs are
+   equal on every key; with clearing off the environ is the task's, and each of
+   the six is exactly what the "-"-spelled lines of that request say. *)
+Theorem C15_e2e_two_requests : forall a ds ds' p p' fl lines lines' (ctx : Environ.config) (cfg : Proxy.config),
+  feed_all a ds = Some p -> accepted p ->
+  feed_all a ds' = Some p' -> accepted p' ->
+  head_parts (concat ds) = Some (fl, lines) -> head_parts (concat ds') = Some (fl, lines') ->
+  kept_lines lines = kept_lines lines' -> same_body p p' ->
+  trusted_proxy cfg <> Some (addr0 (peer_addr ctx)) /\ trusted_proxy cfg <> Some s_star ->
+  exists o o',
+    serve_request cfg ctx p = Ok o /\ serve_request cfg ctx p' = Ok o' /\
+    agree_off is_proxy_key o o' /\
+    meta_fixed a ctx lines o /\ meta_fixed a ctx lines' o' /\
+    filter host_line lines = filter host_line lines' /\
+    (clear_untrusted cfg = true ->
+       (forall k, is_proxy_key k = true -> lookup k o = None /\ lookup k o' = None) /\
+       (forall k, lookup k o = lookup k o')) /\
+    (clear_untrusted cfg = false ->
+       o = environ_of ctx p /\ o' = environ_of ctx p' /\
+       forall pk, is_proxy_key pk = true ->
+         lookup pk o = value_of_lines (key_lines pk lines) /\
+         lookup pk o' = value_of_lines (key_lines pk lines')).
+Proof. exact c15_e2e_two_requests. Qed.
+Print Assumptions C15_e2e_two_requests.
+
+(* ... as the property words it: against the same request with the proxy
+   header lines deleted.  That request never carries any of the six. *)
+Theorem C15_e2e_same_as_deleted : forall a ds ds' p p' fl lines lines' (ctx : Environ.config) (cfg : Proxy.config),
+  feed_all a ds = Some p -> accepted p ->
+  feed_all a ds' = Some p' -> accepted p' ->
+  head_parts (concat ds) = Some (fl, lines) -> head_parts (concat ds') = Some (fl, lines') ->
+  lines' = filter (fun l => negb (proxy_line l)) lines -> same_body p p' ->
+  trusted_proxy cfg <> Some (addr0 (peer_addr ctx)) /\ trusted_proxy cfg <> Some s_star ->
+  exists o o',
+    serve_request cfg ctx p = Ok o /\ serve_request cfg ctx p' = Ok o' /\
+    agree_off is_proxy_key o o' /\
+    meta_fixed a ctx lines o /\ meta_fixed a ctx lines o' /\
+    (forall k, is_proxy_key k = true -> lookup k o' = None) /\
+    (clear_untrusted cfg = true ->
+       (forall k, is_proxy_key k = true -> lookup k o = None) /\ (forall k, lookup k o = lookup k o')).
+Proof. exact c15_e2e_deleted. Qed.
+Print Assumptions C15_e2e_same_as_deleted.
+
+(* One request. *)
+Theorem C15_e2e_one_request : forall a ds p fl lines (ctx : Environ.config) (cfg : Proxy.config),
+  feed_all a ds = Some p -> accepted p -> head_parts (concat ds) = Some (fl, lines) ->
+  trusted_proxy cfg <> Some (addr0 (peer_addr ctx)) /\ trusted_proxy cfg <> Some s_star ->
+  exists o,
+    serve_request cfg ctx p = Ok o /\ meta_fixed a ctx lines o /\
+    (forall k, is_proxy_key k = false -> lookup k o = lookup k (environ_of ctx p)) /\
+    (clear_untrusted cfg = true -> forall k, is_proxy_key k = true -> lookup k o = None) /\
+    (clear_untrusted cfg = false -> o = environ_of ctx p).
+Proof. exact c15_e2e_one_request. Qed.
+Print Assumptions C15_e2e_one_request.
+
+(* The bridge between the two component models is sound: the environ of the
+   task has no repeated key (it is a dict), so the middleware model reads under
+   every key exactly the str the task put there (None for a non-str entry). *)
+Theorem C15_e2e_bridge : forall (ctx : Environ.config) p k,
+  NoDup (map fst (get_environment ctx p)) /\
+  lookup k (environ_of ctx p) = match eget (get_environment ctx p) k with Some (VStr s) => Some s | _ => None end.
+Proof. exact c15_e2e_bridge. Qed.
+Print Assumptions C15_e2e_bridge.
+
+(* [head_parts] really is the head of the run: the header block C07's theorems
+   speak about (head_of / head_lines, existentially) is the one computed here. *)
+Theorem C15_e2e_head_parts : forall a ds p,
+  feed_all a ds = Some p -> accepted p ->
+  exists hp fl lines, head_of ds hp /\ EnvironFields.head_lines hp fl lines /\
+                      head_parts (concat ds) = Some (fl, lines).
+Proof. exact c15_e2e_head_parts. Qed.
+Print Assumptions C15_e2e_head_parts.
